@@ -11,7 +11,8 @@ PROP = {
   "saml2_tophat.response:AuthnResponse.get_subject",
   "saml2_tophat.response:AuthnResponse.verify_recipient",
   "saml2_tophat.config:Config.endpoint",
-  "saml2_tophat.response:AuthnResponse.verify_attesting_entity"
+  "saml2_tophat.response:AuthnResponse.verify_attesting_entity",
+  "saml2_tophat.client_base:Base.service_urls"
  ],
  "level": "proof",
  "id": "C05"
